@@ -254,7 +254,13 @@ def check(repo: Repo) -> Result:
     r3 = res.rule("C05-R3", "the mutating simplify() is only called on temporaries inside the library", floor=4)
     sfn = uo.func("Unit.simplify")
     stores = [n for n in walk_no_nested(sfn.node) if isinstance(n, ast.Assign) and norm(n.targets[0]) == "self.expr"]
-    res.check(len(stores) == 1, "simplify-mutates", sfn.where(), "anchor: simplify stores into self.expr", rid=r3)
+    pure_simplify = not stores and not any(isinstance(n, (ast.AugAssign, ast.Delete)) for n in walk_no_nested(sfn.node))
+    if pure_simplify:
+        # a simplify() that no longer rewrites its receiver (it returns a new unit): the aliasing hazard is gone, and
+        # what matters instead is that no call site relies on the old in-place effect (a bare `u.simplify()` statement)
+        res.ok("simplify-mutates", r3)
+    else:
+        res.check(len(stores) == 1, "simplify-mutates", sfn.where(), "simplify rewrites self.expr in more than one place (the receiver analysis below assumes a single in-place rewrite)", rid=r3)
     n_sites = 0
     for mod in repo.mods(only_anchor=False):
         for q, fns in mod.funcs.items():
@@ -264,6 +270,10 @@ def check(repo: Repo) -> Result:
                         recv = c.func.value
                         n_sites += 1
                         fresh = isinstance(recv, (ast.BinOp, ast.Call))
+                        if pure_simplify:
+                            stmt_only = any(isinstance(st_, ast.Expr) and st_.value is c for st_ in walk_no_nested(f.node))
+                            res.check(not stmt_only, f"{mod.rel.split('/')[-1]}:{q}:{norm(recv)[:40]}", f.where(c), "simplify() returns a new unit and no longer rewrites its receiver, but this call discards the result: the unit is left unsimplified", "result of simplify() used", norm(c), rid=r3)
+                            continue
                         res.check(fresh, f"{mod.rel.split('/')[-1]}:{q}:{norm(recv)[:40]}", f.where(c), "simplify() rewrites its receiver in place; calling it on a named / shared unit changes that unit's expression (and hash) for every holder", "receiver is a temporary (result of an operation)", norm(recv), rid=r3)
 
     # a receiver written as `a * b` is a temporary only if the operator builds a new object on every path: an
